@@ -86,16 +86,14 @@ Definition property (sc : scen) (o : obs) : verdict :=
         else true
     | None => true
     end in
-  (* 3 (cont.): Close returns only after the writer has finished (its exit point precedes the
-     return point of the winning Close in the log, whose order respects happens-before) *)
+  (* 3 (cont.): Close returns only after the writer has flushed: the writer's "flushed" point
+     (reached before its wg.Done) precedes the return point of the winning Close in the log,
+     whose order respects happens-before *)
   let p3b :=
     match winner sc o with
     | Some j =>
         match find_pos (is_ev 3 j 35) (o_events o) 0 with
-        | Some pos =>
-            let before := firstn pos (o_events o) in
-            (negb (sc_hw sc) || negb (Nat.eqb (count_ev 1 0 18 before) 0))
-            && (negb (sc_hr sc) || negb (Nat.eqb (count_ev 2 0 23 before) 0))
+        | Some pos => negb (sc_hw sc) || negb (Nat.eqb (count_ev 1 0 17 (firstn pos (o_events o))) 0)
         | None => true
         end
     | None => true
